@@ -28,7 +28,7 @@ from contracts.resource import busy, decode
 
 
 class RCBase(Contract):
-    props = ("C04", "C05", "C18")
+    props = ("C04", "C05", "C06", "C18")
     raises_props = ("C18",)
     task_sets = (("Fm",), ("Fo",), ("Vm",), ("Fm", "Vo"), ("Fm", "Fm"))
     worker_kinds = ("worker",)
@@ -108,7 +108,7 @@ class RCBase(Contract):
             aux = fresh_consts(A, tasks, pb, extra_known=[f"w_busy_{t.name}_start" for t in tasks] + [f"w_busy_{t.name}_end" for t in tasks])
             goal = z3.Exists(aux, And(*A)) if aux else And(*A)
             out.append(
-                Clause("complete", goal, hyps=valid + rest + [M] + self.complete_hyps(P, ctx, case), props=("C05",), kind="complete", bounded=self.bounded, regions=self.complete_regions(P, ctx, case))
+                Clause("complete", goal, hyps=valid + rest + [M] + self.complete_hyps(P, ctx, case), props=("C05", "C06") if any(t.optional for t in tasks) else ("C05",), kind="complete", bounded=self.bounded, regions=self.complete_regions(P, ctx, case))
             )
         return out
 
@@ -564,7 +564,7 @@ def left_out_clauses(self, P, ctx, case):
                 if hasattr(t, "_duration"):
                     wit.append((t._duration, z3.IntVal(0)))
                 goal = z3.substitute(And(*A), *wit)
-                out.append(Clause("complete[an optional task can be left out]", goal, hyps=[Not(spec.sched(t)), hz >= 0, hz <= T(H)], props=("C05",), kind="complete", bounded=self.bounded))
+                out.append(Clause("complete[an optional task can be left out]", goal, hyps=[Not(spec.sched(t)), hz >= 0, hz <= T(H)], props=("C05", "C06"), kind="complete", bounded=self.bounded))
         return out
 
 
